@@ -346,7 +346,12 @@ pub fn step(s: &mut RefState, quirks: &[Quirk]) -> Step {
     let next = pc0.wrapping_add(dec.len);
     s.pc = next;
     let own = pc0;
-    let icount = dec.len / 2;
+    // instruction-fetch cycles: one per instruction word, except that every instruction that loads
+    // PC also fetches at the target (I = 2 for all branch/jump/call/return/trap forms)
+    let icount = match insn {
+        Insn::Bcc { .. } | Insn::Jmp(_) | Insn::Bsr { .. } | Insn::Jsr(_) | Insn::Rts | Insn::Rte | Insn::Trapa(_) => 2,
+        _ => dec.len / 2,
+    };
     match exec_insn(s, &mut st, insn, next, own, icount, quirks) {
         Ok(()) => {}
         Err(Fault(a)) => st.outcome = Outcome::AccessFault(a),
